@@ -99,7 +99,27 @@ pub fn resolve_in(fs: &Fs, current_file: &str, spec: &str) -> Option<String> {
     } else if spec.starts_with('/') {
         normalize(spec)
     } else {
-        return None;
+        // bare specifier: node_modules lookup, walking up from the importing file's directory
+        let mut dir = dirname(current_file).to_string();
+        loop {
+            let base = format!("{}/node_modules/{}", if dir == "/" { "" } else { &dir }, spec);
+            for ext in TS_EXTS {
+                let c = format!("{}{}", base, ext);
+                if fs.contains_key(&c) {
+                    return Some(c);
+                }
+            }
+            for ext in TS_EXTS {
+                let c = format!("{}/index{}", base, ext);
+                if fs.contains_key(&c) {
+                    return Some(c);
+                }
+            }
+            if dir == "/" || dir.is_empty() {
+                return None;
+            }
+            dir = dirname(&dir).to_string();
+        }
     };
     let trailing_slash = spec.ends_with('/') || spec == "." || spec == "..";
     if !trailing_slash {
